@@ -2,6 +2,7 @@ import Gtree.Lemmas.SourceRefines
 import Gtree.Model.Api
 import Gtree.Lemmas.MkdirExact
 import Gtree.Model.MkOps
+import Gtree.Lemmas.MkInterleave
 /-
   C06 — mkdir over the finite-map file system model. Proved:
    * if any root "exists" (Stat gives anything but does-not-exist) the call fails with the path-exists
@@ -199,4 +200,25 @@ theorem C06_preserves_existing_massive : ∀ (ops : List FsOp) (fs : FS) (p : By
       | create q => exact create_preserves fs q p k (hne q (by simp)) h
     · intro q hq
       exact hne q (by simp [hq])
+end Gtree
+
+namespace Gtree
+/-- **EXACTNESS of a successful Mkdir in the massive mode, for every schedule**: under the hypotheses of `C06_exact`,
+    after ANY interleaving of the roots' file-system operations every operation has succeeded, every node path
+    exists with the right kind, the missing prefixes of the target have become directories, and `lookup` of every
+    other path is what it was. -/
+theorem C06_exact_massive (f : Fmt) (exts : List Bytes) (ts : List Bytes) (roots : List T) (fs : FS)
+    (hts : GoodList ts) (hg : AllGoodL roots) (hd : DistinctL roots) (hc : fs.Closed)
+    (hnf : ∀ i < ts.length, notFile fs (key (ts.take (i + 1))))
+    (hnone : anyRootExists fs (key ts) (roots.map (growRoot f)) = false)
+    (r : List EOp) (hint : Interleave (roots.map (fun t => opsTree exts ts t)) r) :
+    ∃ s, runE fs r = (s, none) ∧ Exact exts ts roots fs s := by
+  have habs := nodes_absent f exts ts roots fs hts hg hc hnone
+  obtain ⟨s, hrun, hsame⟩ := interleave_same exts ts roots fs hts hg hd hnf habs r hint
+  obtain ⟨_, hex⟩ := mkKids_exact exts roots ts fs hts hg hd hnf habs
+  refine ⟨s, hrun, ⟨?_, ?_, ?_, ?_⟩⟩
+  · intro e he; rw [hsame]; exact hex.nodes e he
+  · intro i hi k hk; rw [hsame]; exact hex.keep i hi k hk
+  · intro hne i hi hn; rw [hsame]; exact hex.make hne i hi hn
+  · intro p h1 h2; rw [hsame]; exact hex.frame p h1 h2
 end Gtree
